@@ -6,8 +6,10 @@ FILES = ["Engine/Toposort.v", "Engine/ToposortProof.v", "Engine/Tagged.v", "Engi
          "Engine/Run08.v", "Engine/TaggedProof.v", "Props/C08.v"]
 RULE = ("random closed programs of the object language with nested grad / forward-mode derivative operators "
         "(depth 2..4, every mode assignment arises), inner bodies closing over any subset of the enclosing "
-        "variables, value-steered branches; distinct by program text, non-trivial when the nesting depth of "
-        "differential operators is >= 2")
+        "variables, value-steered branches; plus a systematic closure family (one binary primitive - operators and a "
+        "primitive whose raw function only accepts plain numbers - on every ordered pair of arguments from "
+        "{y, x, y*x, x*y, y+x, F(y), const} under all four mode pairings, and depth-3 variants); distinct by program "
+        "text, non-trivial when the nesting depth of differential operators is >= 2")
 TRUST = ["the formal function F and its derivative family are realised in Python as user primitives F[n](x) = d^n/dx^n x^6"]
 ASSUMPTIONS = ["scalar-valued programs over +,-,*,neg and one formal smooth function with its derivative family",
                "float64 arithmetic is exact on the generated integer data (larger cases are skipped)"]
@@ -20,6 +22,14 @@ def run(res, tier, seed, broken):
                                     min_ddepth=2)
     if err:
         broken = broken + [{"obligation": "implementation side failed to run", "log": err[-3000:]}]
+    import random
+    fam = l2.closure_family()
+    if not big:
+        fam = random.Random(seed).sample(fam, 300)
+    b2, t2, e2 = l2.run_programs(res, "c08_closure", seed, 0, {}, programs=fam)
+    bad, tie = bad + b2, tie + t2
+    if e2:
+        broken = broken + [{"obligation": "implementation side failed to run", "log": e2[-3000:]}]
 
     def hunt():
         for k in range(8 if big else 3):
